@@ -726,7 +726,7 @@ func newCmafSource(nrBytesCh chan int, writeMoreCh chan struct{}, log *slog.Logg
 }
 
 func (cs *cmafSource) startReadAndSendChunked(ctx context.Context, finishedCh chan struct{}) {
-	defer close(cs.abort) // releases the writer side if the request failed or was answered with an error
+	defer close(cs.abort)        // releases the writer side if the request failed or was answered with an error
 	cs.writeMoreCh <- struct{}{} // Get the writer going
 	cs.ctx = ctx
 	req, err := http.NewRequestWithContext(ctx, "PUT", cs.url, cs)
